@@ -582,6 +582,51 @@ def runStress (op impl : String) : Option Ans :=
     | _, _ => none
   | _ => none
 
+/-! ### real path: HTTP/2 request bodies  `P;st:<data>:<n1.n2…>;…`  (one pipe per stream, pool re-use between
+    streams).  All DATA and END_STREAM have reached the pipe before the handler reads, so no Read blocks. -/
+
+def runP1 (data : List UInt8) (sizes : List Nat) : List String :=
+  let s0 := ((Sys.init 65535).step (.write data)).1
+  let s1 := (s0.step (.close 0 false)).1
+  let rec go (s : Sys) (ns : List Nat) (acc : List String) : List String :=
+    match ns with
+    | [] => acc.reverse
+    | n :: rest =>
+      match ((s.step (.startRead n)).1).step .readerStep with
+      | (s', .read (.data bs)) => go s' rest (hexField bs :: acc)
+      | (_, .read (.err e _)) => (("err" ++ toString e) :: acc).reverse
+      | (_, _) => ("blocked" :: acc).reverse
+  go s1 sizes []
+
+/-- spec for one stream: the reads return consecutive pieces of exactly this stream's data, each as large as
+    possible, then EOF -/
+def specP1 (data : List UInt8) : List Nat → List String
+  | [] => []
+  | n :: rest => if data.isEmpty then ["err0"] else hexField (data.take n) :: specP1 (data.drop n) rest
+
+def runH2Path (op impl : String) : Ans :=
+  match op.splitOn ";" with
+  | "P" :: sts =>
+    let parsed := sts.mapM fun t =>
+      match t.splitOn ":" with
+      | ["st", hx, ns] => do
+        let dd ← bytesOfHex hx
+        let sizes ← (ns.splitOn ".").mapM String.toNat?
+        pure (dd, sizes)
+      | _ => none
+    match parsed with
+    | none => { model := "bad-op", verdict := "skip" }
+    | some l =>
+      let model := ";".intercalate (l.map fun (dd, ns) => ",".intercalate (runP1 dd ns))
+      let spec := l.map fun (dd, ns) => ",".intercalate (specP1 dd ns)
+      let got := impl.splitOn ";"
+      let verdict :=
+        if impl.startsWith "PANIC" || impl == "HANG" then "FAIL:h2-body-hang"
+        else if got.length != spec.length then "FAIL:h2-body-streams"
+        else if got == spec then "ok" else "FAIL:h2-body"
+      { model := model, verdict := verdict, tags := ["h2-body", "nt"] }
+  | _ => { model := "bad-op", verdict := "skip" }
+
 /-- `S2;cap;a=<hex>;b=<hex>;wc;rc;e`: two concurrent writers and one reader.  By `C21_fifo` (every byte
     once, in acceptance order) and because each writer offers its own bytes in order, every fair schedule
     gives: writer A's bytes in order, writer B's bytes in order (printed separately), then the close error. -/
@@ -597,6 +642,7 @@ def runStress2 (op impl : String) : Ans :=
 
 def run (op impl : String) : Ans :=
   if op.startsWith "S2;" then runStress2 op impl else
+  if op.startsWith "P;" then runH2Path op impl else
   if op.startsWith "S;" then
     match runStress op impl with
     | some a => a
